@@ -722,13 +722,27 @@ def run_r5_graph(repo: Repo, res: Result) -> None:
     hier = [attrs(e) for r in runs for e in r.effects if endpoints(e) is not None and not ("A" in "".join(endpoints(e)) and "B" in "".join(endpoints(e)))]
     hier_marker = {k: v for k, v in hier[0].items() if isinstance(v, bool) and all(h.get(k) is v for h in hier)} if hier else {}
 
+    murky: set[str] = set()  # names of collections asked for an endpoint whose relation to the nodes of the graph is not understood
+    ledgers: set[str] = set()  # names of native collections whose members the construction turns into nodes (recorded construction)
+
     def known_node(r: Run, e, t: Any) -> bool:
-        """has_node(t) was established before the edge is added and no node has been removed since."""
+        """has_node(t) was established before the edge is added and no node has been removed since - or, where the construction is
+        recorded first and materialised later: t was found in a collection, and as a member of it was added as a node before the edge."""
+        removers = ("remove_node", "remove_nodes_from", "clear")
         for at, v in e.path.items():
             if v and at.fn.startswith("hasnode@") and at.args == (e.obj.name, t):
                 since = int(at.fn.split("@")[1])
-                if since <= e.version and not any(x.kind == "ext" and x.obj is e.obj and x.name in ("remove_node", "remove_nodes_from", "clear") and since <= x.version < e.version for x in r.effects):
+                if since <= e.version and not any(x.kind == "ext" and x.obj is e.obj and x.name in removers and since <= x.version < e.version for x in r.effects):
                     return True
+        for at, v in e.path.items():
+            if v and at.fn.startswith("member@") and at.args[1] == t:
+                for x in r.effects:
+                    if x is e:
+                        break
+                    if x.kind == "ext" and x.obj is e.obj and x.name == "add_node" and x.args and x.args[0] == t and (at.args[0], t) in x.origins:
+                        if not any(y.kind == "ext" and y.obj is e.obj and y.name in removers and x.version <= y.version < e.version for y in r.effects):
+                            ledgers.add(at.args[0])
+                            return True
         return False
 
     def same_by_equalities(r: Run) -> bool:
@@ -767,6 +781,11 @@ def run_r5_graph(repo: Repo, res: Result) -> None:
             n_edges += 1
             edge_where = e.where or edge_where
             x, y = e.args[0], e.args[1]
+            if "AB" in ep:
+                # an endpoint computed from both sides of the record (or read back from an opaque collection that holds both): the
+                # executor cannot tell which way the edge runs - no evidence of a wrong orientation
+                unknown.append(f"an edge is added from {show(x)[:200]} to {show(y)[:200]}: the executor cannot separate importer and importee in these endpoints")
+                continue
             if ep != ("A", "B"):
                 orient_bad.append(f"an edge is added from {show(x)} to {show(y)}: its endpoints are not (importer, importee) of the import record")
                 continue
@@ -782,10 +801,20 @@ def run_r5_graph(repo: Repo, res: Result) -> None:
                 first = e.n_decisions
             for t in (x, y):
                 if not known_node(r, e, t):
+                    asked = [at for at, v in e.path.items() if v and at.fn.startswith("member@") and at.args[1] == t]
+                    if asked:
+                        # a membership test did precede the edge - in a collection the executor cannot relate to the nodes of the graph
+                        unknown.append(f"the edge {show(x)} -> {show(y)} is added after {show(t)} was found in the collection {asked[0].args[0]}: the executor cannot tell whether that collection holds the known modules")
+                        murky.add(asked[0].args[0])
+                        continue
                     known_bad.append(f"the edge {show(x)} -> {show(y)} is added without a check that {show(t)} is a known module: imported names that are not modules become edges / nodes")
         if first is not None:
             with_edge.append((r, first))
         elif r.outcome == "raise":
+            # module names are strings (`all_modules: list[str]`, `Import.importer() -> str`, ...): a path on which one of them is None
+            # (`if node is None: raise ValueError`, which networkx' add_node does as well) is outside the domain of the property
+            if any(v and at.fn == "isnone" and not (isinstance(at.args[0], Sym) and at.args[0].kind in ("optint", "optstr")) for at, v in r.path.items()):
+                continue
             unknown.append(f"graph construction raises {r.raised} when {fmt_path(r)}")
 
     def excuse(r: Run, at: App, v: bool) -> bool:
@@ -793,6 +822,10 @@ def run_r5_graph(repo: Repo, res: Result) -> None:
             return True
         if at.fn.startswith("hasnode@") and not v and about(at.args[1]) in ("A", "B"):
             return True
+        if at.fn.startswith("member@") and not v and at.args[0] in ledgers and about(at.args[1]) in ("A", "B"):
+            return True  # not recorded as a node: an unknown endpoint
+        if at.fn.startswith("member@") and v and isinstance(at.args[1], tuple) and len(at.args[1]) >= 2 and about(at.args[1][0]) == "A" and about(at.args[1][1]) == "B":
+            return True  # the pair (importer, importee) is recorded already: like has_edge
         if at.fn.startswith("hasedge@") and v and about(at.args[1]) == "A" and about(at.args[2]) == "B":
             return True
         return False
@@ -814,7 +847,9 @@ def run_r5_graph(repo: Repo, res: Result) -> None:
             continue  # ended (or was cut off) before anything distinguishes it from a path that adds the edge
         at, v = r.trace[best_j]
         if at.fn in ("loop", "call") or any(excuse(r, a2, v2) for a2, v2 in r.trace[: best_j + 1]):
-            continue  # (an edge that exists already may be kept or replaced depending on its kind: everything decided after has_edge is about that)
+            continue
+        if at.fn.startswith("member@") and at.args[0] in murky:
+            continue  # already reported as undecided  # (an edge that exists already may be kept or replaced depending on its kind: everything decided after has_edge is about that)
         drop_bad.append(f"the import edge importer -> importee is not added when {show(at)} = {v} (on a path where both are known, distinct modules and no such edge exists yet, it is added only when {show(at)} = {not v})")
     if ex.fallbacks and (orient_bad or known_bad or drop_bad or not n_edges):
         # a helper could only be treated as an uninterpreted function: what looks like a violation may be an artefact of that
